@@ -1150,7 +1150,7 @@ def _copy_blocks(cj, lo, bo, origin_name, origin_file):
     return out
 
 
-MAX_SITES = int(os.environ.get("ZV_MSI_SITES", "8"))          # a local fn with up to this many call sites is spliced into each caller
+MAX_SITES = int(os.environ.get("ZV_MSI_SITES", "16"))          # a local fn with up to this many call sites is spliced into each caller
 MAX_MULTI_BLOCKS = int(os.environ.get("ZV_MSI_BLOCKS", "400"))  # ... when it is called more than once, only if it is at most this big (raw blocks)
 
 
